@@ -53,6 +53,27 @@ def ctok(c):
     return "%d %d %d" % (c.p(), c.a(), c.b())
 
 
+TWINS = ("new", "new_h1", "new_h4", "deepcopy", "pickle")
+
+
+def twin_curve(c, mode):
+    """a CurveFp object EQUAL to `c` (same p, a, b; `CurveFp.__eq__` ignores the cofactor) but a DISTINCT object: built a
+    second time (without / with a cofactor), deep-copied, or sent through pickle — as a point that was constructed
+    elsewhere, copied or unpickled carries it"""
+    import copy, pickle
+    if mode == "new":
+        return curve_of(c.p(), c.a(), c.b())
+    if mode == "new_h1":
+        return curve_of(c.p(), c.a(), c.b(), 1)
+    if mode == "new_h4":
+        return curve_of(c.p(), c.a(), c.b(), 4)
+    if mode == "deepcopy":
+        return copy.deepcopy(c)
+    if mode == "pickle":
+        return pickle.loads(pickle.dumps(c))
+    raise RuntimeError("harness: unknown twin mode " + mode)
+
+
 class Spec:
     """description of an operand; `tok` is its wire token, `make()` builds a fresh real object"""
 
